@@ -12,6 +12,7 @@ import (
 	"sort"
 	"strings"
 	"sync"
+	"sync/atomic"
 	"time"
 
 	"golang.org/x/tools/go/ssa"
@@ -32,6 +33,8 @@ type Config struct {
 	ExpectPanic   bool // harness expects a Go panic on every path reaching vexpectpanic (unused by default)
 	Verbose       bool
 	KnownOpen     map[string]bool // known-finding ids that are open (vknown returns its condition)
+	Asserts       []string        // assertion-id prefixes the running property selects (nil: all)
+	StopFlag      *int32          // shared by the tasks of one check: set once enough new violations were found
 }
 
 type Job struct {
@@ -306,6 +309,9 @@ func (e *Engine) worker(helper bool) {
 		if e.cfg.Verbose {
 			fmt.Fprintf(os.Stderr, "[path %d] %s %s decs=%d steps=%d pc=%d\n", e.res.Paths, end.kind, end.msg, len(w.decs), w.steps, len(w.pc))
 		}
+		if !e.stopAll && e.enoughViolations() {
+			e.stopAll = true
+		}
 		if e.res.Paths%64 == 0 && memoryExceeded() && !e.stopAll {
 			e.res.Inconclusive = append(e.res.Inconclusive, "budget: process memory above the limit; exploration stopped")
 			e.stopAll = true
@@ -359,6 +365,25 @@ func (w *Worker) violationFromModel(kind, id string, m map[string]uint64) Violat
 		}
 	}
 	return v
+}
+
+// enoughViolations: this task has already produced several new (not known-finding) violations of the property being
+// checked; exploring further paths of a broken tree only costs time (the check exits 1 in any case)
+func (e *Engine) enoughViolations() bool {
+	if e.cfg.StopFlag != nil && atomic.LoadInt32(e.cfg.StopFlag) != 0 {
+		return true
+	}
+	n := 0
+	for _, v := range e.res.Violations {
+		if v.Known != "" {
+			continue
+		}
+		if v.Kind == "assert" && len(e.cfg.Asserts) > 0 && !hasPrefixAny(v.ID, e.cfg.Asserts) {
+			continue
+		}
+		n++
+	}
+	return n >= 6
 }
 
 // memoryExceeded: the Go heap of the engine is above 20 GB (checks must end as INCONCLUSIVE, not be OOM-killed)
